@@ -5,6 +5,8 @@ import (
 	"fmt"
 	"os"
 	"path/filepath"
+	"runtime"
+	"strings"
 	"sync"
 
 	"github.com/btcsuite/btcd/blockchain"
@@ -12,6 +14,8 @@ import (
 	"github.com/btcsuite/btcd/database"
 	_ "github.com/btcsuite/btcd/database/ffldb"
 	"github.com/btcsuite/btcd/wire/v2"
+
+	"verif/harness/internal/vrun"
 )
 
 // Note is one connected/disconnected notification.
@@ -504,4 +508,39 @@ func (n *Node) CheckHeaderViews(clean func(b int) bool) string {
 		return fmt.Sprintf("BestChainHeaderForkHeight=%d, active chain %v and header chain %v fork at height %d", got, best, path, fork)
 	}
 	return ""
+}
+
+// guardPanic turns a panic that starts inside the code under test (the first
+// non-runtime frame of the stack is in github.com/btcsuite/btcd) into a
+// violation of the property being checked: a replayed call must return, not
+// take the process down.  Any other panic is a harness error and is re-raised.
+func guardPanic(ctx *vrun.Ctx, what string) {
+	r := recover()
+	if r == nil {
+		return
+	}
+	buf := make([]byte, 1<<15)
+	buf = buf[:runtime.Stack(buf, false)]
+	inRepo := false
+	for _, line := range strings.Split(string(buf), "\n") {
+		if strings.HasPrefix(line, "\t") || strings.HasPrefix(line, "goroutine ") || line == "" {
+			continue
+		}
+		if strings.HasPrefix(line, "runtime.") || strings.HasPrefix(line, "panic(") || strings.Contains(line, "guardPanic") || strings.HasPrefix(line, "runtime/debug.") {
+			continue
+		}
+		inRepo = strings.HasPrefix(line, "github.com/btcsuite/btcd/")
+		break
+	}
+	if !inRepo {
+		panic(r)
+	}
+	ctx.Violation("panic:code-under-test", fmt.Sprintf("%s: the node panicked: %v\n%s", what, r, tailOfHead(string(buf), 1500)), map[string]any{"what": what, "panic": fmt.Sprint(r)})
+}
+
+func tailOfHead(s string, n int) string {
+	if len(s) > n {
+		return s[:n]
+	}
+	return s
 }
